@@ -59,6 +59,7 @@ def run(tier, seed):
     for _ in range(4 if tier == "quick" else 40):
         cases.append((g.rng.choice([1e6, 1e7, 3e5]), g.rng.choice([100, 1000, 50]), g.rng.choice([8, 12, 5]), 6, g.rng.choice([0, 0.4])))
     out.append(carrier([{"obs": "oracle", "name": "c18_disparity", "cases": cases}]))
+    out.append(carrier([{"obs": "oracle", "name": "c18_timefuncs", "seed": seed, "n": 8 if tier == "quick" else 80}]))
     ex = checklib.explore(out, keys=KEYS, per_prog_timeout=30.0)
     nontrivial = set()
     for p, a in zip(out, ex["mres"]):
